@@ -25,6 +25,8 @@ pub mod h_c16;
 pub mod h_agree;
 pub mod h_probe;
 pub mod h_hist;
+pub mod h_records;
+pub mod h_completion;
 pub mod oracle { include!("gen/oracle.rs"); }
 
 pub mod registry;
